@@ -48,11 +48,18 @@ pub struct LastErrorDescriptor { pub x: u8 }
 impl LastErrorDescriptor {
     #[verifier::external_body] pub fn meet_xor_right_branch(&mut self) { unimplemented!() }
 }
-pub struct ErrorDescriptor { pub x: u8 }
+// the `:error:` descriptor: a ghost log of the operations performed on it (the real ones: error_descriptor.rs)
+pub enum ErrOp { SetOriginal(ExecutionError), Enable, Clear }
+pub type ErrOps = vstd::seq::Seq<ErrOp>;
+pub struct ErrorDescriptor { pub ops: Ghost<ErrOps> }
 impl ErrorDescriptor {
-    #[verifier::external_body] pub fn set_original_execution_error(&mut self, e: &ExecutionError) { unimplemented!() }
-    #[verifier::external_body] pub fn enable_error_setting(&mut self) { unimplemented!() }
-    #[verifier::external_body] pub fn clear_error_object_if_needed(&mut self) { unimplemented!() }
+    #[verifier::external_body] pub fn set_original_execution_error(&mut self, e: &ExecutionError)
+        ensures final(self).ops@ == old(self).ops@.push(ErrOp::SetOriginal(*e)) { unimplemented!() }
+    #[verifier::external_body] pub fn enable_error_setting(&mut self)
+        ensures final(self).ops@ == old(self).ops@.push(ErrOp::Enable) { unimplemented!() }
+    // real: `if self.error_can_be_set { self.error = no_error(); }`
+    #[verifier::external_body] pub fn clear_error_object_if_needed(&mut self)
+        ensures final(self).ops@ == old(self).ops@.push(ErrOp::Clear) { unimplemented!() }
 }
 pub struct TraceHandler { pub x: u8 }
 
@@ -63,6 +70,8 @@ pub struct Ran {
     pub id: int,                        // which child
     pub res: ExecutionResult<()>,       // what it returned
     pub complete: bool,                 // `is_subgraph_complete()` right after it returned
+    pub err_pre: ErrOps,                // what had been done to the `:error:` descriptor when it started
+    pub err: ErrOps,                    // ... and when it returned (a child may do anything to it)
 }
 
 pub struct ExecutionCtx<'i> {
@@ -77,7 +86,7 @@ impl ExecutionCtx<'_> {
 //@ lift air/src/execution_step/execution_context/context.rs :: impl ExecutionCtx<'_> :: fn flush_subgraph_completeness
 //@ props C18
 //@ spec
-        ensures final(self).subgraph_completeness, final(self).log@ == old(self).log@
+        ensures final(self).subgraph_completeness, final(self).log@ == old(self).log@, final(self).error_descriptor == old(self).error_descriptor
 //@ end
 
 //@ lift air/src/execution_step/execution_context/context.rs :: impl ExecutionCtx<'_> :: fn is_subgraph_complete
@@ -102,7 +111,8 @@ impl<'i> ExecutableInstruction<'i> for Instruction<'i> {
     #[verifier::external_body]
     fn execute(&self, exec_ctx: &mut ExecutionCtx<'i>, trace_ctx: &mut TraceHandler) -> (r: ExecutionResult<()>)
         ensures final(exec_ctx).log@ == old(exec_ctx).log@.push(
-            Ran { id: self.id as int, res: r, complete: final(exec_ctx).subgraph_completeness })
+            Ran { id: self.id as int, res: r, complete: final(exec_ctx).subgraph_completeness,
+                  err_pre: old(exec_ctx).error_descriptor.ops@, err: final(exec_ctx).error_descriptor.ops@ })
     { unimplemented!() }
 }
 
@@ -120,7 +130,7 @@ impl<'i> ExecutableInstruction<'i> for Instruction<'i> {
 
 // ---------------------------------------------------------------- C18.V1
 // what the property statement demands of an xor, as a relation between the log before, the log after and the result
-pub open spec fn xor_spec(left: int, right: int, log0: Log, log1: Log, r: ExecutionResult<()>) -> bool {
+pub open spec fn xor_spec(left: int, right: int, log0: Log, log1: Log, r: ExecutionResult<()>, err1: ErrOps) -> bool {
     let n = log0.len() as int;
     // the left branch always runs, first
     &&& log1.len() > n
@@ -131,11 +141,18 @@ pub open spec fn xor_spec(left: int, right: int, log0: Log, log1: Log, r: Execut
             &&& log1.len() == n + 2
             &&& log1[n + 1].id == right
             &&& r == log1[n + 1].res
+            // inside the right branch the error descriptor carries THAT failure and accepts the errors of the branch ...
+            &&& log1[n + 1].err_pre == log1[n].err.push(ErrOp::SetOriginal(log1[n].res->Err_0)).push(ErrOp::Enable)
+            // ... and only a caught error is ever cleared: once, after the right branch
+            &&& err1 == (if r is Ok { log1[n + 1].err.push(ErrOp::Clear).push(ErrOp::Enable) } else { log1[n + 1].err.push(ErrOp::Clear) })
         } else {
             // successful or still-waiting left branch (Ok, subgraph complete or not), or uncatchable error:
             // the right branch does not run, left's result is returned unchanged
             &&& log1.len() == n + 1
             &&& r == log1[n].res
+            // and the xor does not touch the error descriptor: an xor that catches nothing, nested in the catch branch of another
+            // one, must not wipe the error that one is handling
+            &&& err1 == log1[n].err
         }
 }
 
@@ -149,13 +166,13 @@ impl<'i> Xor<'i> {
 //@ ret r
 //@ rewrite 1 "res => res," => "res => { proof { exec_ctx.log@ = exec_ctx.log@; } res }"
 //@ spec
-        ensures xor_spec(self.0.id as int, self.1.id as int, old(exec_ctx).log@, final(exec_ctx).log@, r)
+        ensures xor_spec(self.0.id as int, self.1.id as int, old(exec_ctx).log@, final(exec_ctx).log@, r, final(exec_ctx).error_descriptor.ops@)
 //@ end
 }
 
 impl<'i> ExecutableInstruction<'i> for Xor<'i> {
     fn execute(&self, exec_ctx: &mut ExecutionCtx<'i>, trace_ctx: &mut TraceHandler) -> (r: ExecutionResult<()>)
-        ensures xor_spec(self.0.id as int, self.1.id as int, old(exec_ctx).log@, final(exec_ctx).log@, r)
+        ensures xor_spec(self.0.id as int, self.1.id as int, old(exec_ctx).log@, final(exec_ctx).log@, r, final(exec_ctx).error_descriptor.ops@)
     { Xor::execute(self, exec_ctx, trace_ctx) }
 }
 
